@@ -410,6 +410,7 @@ async fn run_inner(w: &Workload, chooser: &mut Chooser, seed: u64) -> Obs {
     let hard_deadline = Duration::from_millis(30_000 + last_send_ms + w.horizon_ms);
     let mut all_done_at: Option<u64> = None;
     let mut fault_budget_open = true;
+    let mut burst_left = [0u32; 2];
     let mut th: u64 = 0xcbf29ce484222325;
     let mut hash = |s: &str| {
         for x in s.as_bytes() {
@@ -465,12 +466,20 @@ async fn run_inner(w: &Workload, chooser: &mut Chooser, seed: u64) -> Obs {
         // choice point: only once both ends are connected and the datagram is application data
         let is_app = wire::dtls_records(&d.data).iter().all(|r| r.ctype == 23 && r.epoch >= 1);
         let mut fault = Fault::None;
-        if both && is_app && fault_budget_open {
+        if both && is_app && burst_left[src as usize] > 0 {
+            // inside a loss burst started by an earlier DropBurst: not a choice point
+            burst_left[src as usize] -= 1;
+            fault = Fault::Drop;
+        } else if both && is_app && fault_budget_open {
             let n = w.faults.len() + 1;
             let c = chooser.choose(n, || lab.clone());
             if c > 0 {
                 fault = w.faults[c - 1];
                 obs.applied.push((chooser.points.len() - 1, lab.clone(), fault.name()));
+                if let Fault::DropBurst(k) = fault {
+                    burst_left[src as usize] = k.saturating_sub(1) as u32;
+                    fault = Fault::Drop;
+                }
             }
         }
         if w.record_wire || true {
@@ -527,6 +536,7 @@ async fn run_inner(w: &Workload, chooser: &mut Chooser, seed: u64) -> Obs {
             Fault::Delay(k) => {
                 held.hold(dst, k, d.clone());
             }
+            Fault::DropBurst(_) => {}
         }
         let _ = &mut fault_budget_open;
     }
